@@ -147,6 +147,15 @@ static void one_case(const Args &a, long k, FaceSet &fs, bool hostile, bool real
     if (illformed) st.add("illformed_texts");
     if (!seg) st.add("null_segments");
     else {
+        if (getenv("VF_DUMP")) {
+            // structure only, pointer-safe: index, gid, parent / first child / next sibling as stream indices (-1 none, -2 not in the stream)
+            std::map<const gr_slot *, int> ix;
+            int n = 0;
+            for (const gr_slot *p = gr_seg_first_slot(seg); p && n < 100000; p = gr_slot_next_in_segment(p)) ix[p] = n++;
+            auto id = [&](const gr_slot *p) { return !p ? -1 : ix.count(p) ? ix[p] : -2; };
+            for (const gr_slot *p = gr_seg_first_slot(seg); p; p = gr_slot_next_in_segment(p))
+                printf("D slot %d gid=%u par=%d ch=%d sib=%d before=%d after=%d\n", ix[p], gr_slot_gid(p), id(gr_slot_attached_to(p)), id(gr_slot_first_attachment(p)), id(gr_slot_next_sibling_attachment(p)), gr_slot_before(p), gr_slot_after(p));
+        }
         size_t nchars = illformed ? gr_seg_n_cinfo(seg) : t.size();
         StructReport sr;
         std::vector<const gr_slot *> order = walk_struct(seg, nchars, realgids ? fs.nglyphs : 0, f, font, sr);
